@@ -30,6 +30,22 @@ def sh(cmd, timeout=1800, cwd=None, env=None):
     return p.returncode, p.stdout.decode("utf-8", "replace")
 
 
+import contextlib, fcntl
+
+
+@contextlib.contextmanager
+def build_lock(name):
+    """Serialises a build step across check processes started at the same time (two `make`s or two extractions in
+    the same directory would corrupt each other); running the suites themselves needs no lock."""
+    os.makedirs(BUILD, exist_ok=True)
+    with open(f"{BUILD}/{name}.lock", "w") as f:
+        fcntl.flock(f, fcntl.LOCK_EX)
+        try:
+            yield
+        finally:
+            fcntl.flock(f, fcntl.LOCK_UN)
+
+
 class BuildFailure(Exception):
     def __init__(self, what, log):
         super().__init__(what)
@@ -41,11 +57,12 @@ class BuildFailure(Exception):
 
 def coq_make(targets=None, timeout=3000):
     """Full .vo build (never -vos) of the development, or of the given .vo targets."""
-    rc, out = sh(f"{VERIF}/tools/mkcoqproject.sh")
-    if rc != 0:
-        raise BuildFailure("coq_makefile", out)
-    tgt = " ".join(targets) if targets else ""
-    rc, out = sh(f"timeout {timeout} make -j{NCPU} {tgt}", cwd=COQ, timeout=timeout + 60)
+    with build_lock("coq"):
+        rc, out = sh(f"{VERIF}/tools/mkcoqproject.sh")
+        if rc != 0:
+            raise BuildFailure("coq_makefile", out)
+        tgt = " ".join(targets) if targets else ""
+        rc, out = sh(f"timeout {timeout} make -j{NCPU} {tgt}", cwd=COQ, timeout=timeout + 60)
     return rc, out
 
 
@@ -116,7 +133,8 @@ def print_assumptions(module, names):
         f.write(f"From RRSS Require Import {module}.\n")
         for n in names:
             f.write(f'Goal True. idtac "@@BEGIN {n}". Abort.\nPrint Assumptions {n}.\nGoal True. idtac "@@END {n}". Abort.\n')
-    rc, out = sh(f"timeout 600 coqc -Q {COQ} RRSS {path}", cwd=f"{BUILD}/audit")
+    with build_lock("coq"):
+        rc, out = sh(f"timeout 600 coqc -Q {COQ} RRSS {path}", cwd=f"{BUILD}/audit")
     res = {}
     if rc != 0:
         return None, out
@@ -140,25 +158,28 @@ def build_harness():
     os.makedirs(BUILD, exist_ok=True)
     if os.environ.get("VERIF_SKIP_BUILD") == "1":      # tools/coverage.sh: binaries were built by the caller
         return ""
-    sh(f"cp {REPO}/Cargo.lock {VERIF}/harness/Cargo.lock")
     logs = []
-    for prof in ("", "--release"):
-        rc, out = sh(f"cargo build --offline {prof}", cwd=f"{VERIF}/harness", timeout=1500)
-        logs.append(out)
-        if rc != 0:
-            raise BuildFailure("cargo build harness " + prof, out[-4000:])
+    with build_lock("cargo"):
+        sh(f"cp {REPO}/Cargo.lock {VERIF}/harness/Cargo.lock")
+        for prof in ("", "--release"):
+            rc, out = sh(f"cargo build --offline {prof}", cwd=f"{VERIF}/harness", timeout=1500)
+            logs.append(out)
+            if rc != 0:
+                raise BuildFailure("cargo build harness " + prof, out[-4000:])
     return "\n".join(logs)
 
 
 def build_rrss_bin():
-    for prof in ("", "--release"):
-        rc, out = sh(f"cargo build --offline {prof} --bin rrss --target-dir {BUILD}/target", cwd=REPO, timeout=1500)
-        if rc != 0:
-            raise BuildFailure("cargo build rrss " + prof, out[-4000:])
+    with build_lock("cargo"):
+        for prof in ("", "--release"):
+            rc, out = sh(f"cargo build --offline {prof} --bin rrss --target-dir {BUILD}/target", cwd=REPO, timeout=1500)
+            if rc != 0:
+                raise BuildFailure("cargo build rrss " + prof, out[-4000:])
 
 
 def build_driver():
-    rc, out = sh(f"{VERIF}/tools/build_driver.sh", timeout=1500)
+    with build_lock("coq"):
+        rc, out = sh(f"{VERIF}/tools/build_driver.sh", timeout=1500)
     if rc != 0:
         raise BuildFailure("extract+ocaml driver", out[-4000:])
 
